@@ -259,6 +259,95 @@ func genC03(repo string, args []string) (string, error) {
 	handler(hm, "rule.", "m.Node")
 	handler(hc, "rule.base.", "m.Node()")
 
+	// ---- runCommentRules: the match data a comment rule hands to its handler is declared INSIDE the loop over the rules (it
+	// starts without captures for every rule), and the rule's submatches are appended to that variable only
+	rc := c03FindFunc(rf, "runCommentRules")
+	if rc == nil {
+		return "", fmt.Errorf("runCommentRules not found")
+	}
+	freshOK := false
+	var ruleLoops []*ast.RangeStmt
+	ast.Inspect(rc.Body, func(n ast.Node) bool {
+		if rs, ok := n.(*ast.RangeStmt); ok && exprString(fset, rs.X) == "rr.rules.universal.commentRules" {
+			ruleLoops = append(ruleLoops, rs)
+		}
+		return true
+	})
+	if len(ruleLoops) == 1 {
+		loop := ruleLoops[0]
+		// the variable handed to the handler
+		mvar, calls := "", 0
+		ast.Inspect(rc.Body, func(n ast.Node) bool {
+			if ce, ok := n.(*ast.CallExpr); ok && exprString(fset, ce.Fun) == "rr.handleCommentMatch" {
+				calls++
+				if len(ce.Args) == 2 {
+					if id, ok := ce.Args[1].(*ast.Ident); ok && ce.Pos() > loop.Body.Pos() && ce.End() < loop.Body.End() {
+						mvar = id.Name
+					}
+				}
+			}
+			return true
+		})
+		// declared as a zero value (`var m matchData` / `m := matchData{}`) by a top-level statement of the loop body, nowhere else
+		declIn, declOut := 0, 0
+		isZeroDecl := func(st ast.Stmt) bool {
+			switch d := st.(type) {
+			case *ast.DeclStmt:
+				gd, ok := d.Decl.(*ast.GenDecl)
+				if !ok || gd.Tok != token.VAR || len(gd.Specs) != 1 {
+					return false
+				}
+				vs := gd.Specs[0].(*ast.ValueSpec)
+				return len(vs.Names) == 1 && vs.Names[0].Name == mvar && len(vs.Values) == 0 && vs.Type != nil && exprString(fset, vs.Type) == "matchData"
+			case *ast.AssignStmt:
+				return d.Tok == token.DEFINE && len(d.Lhs) == 1 && len(d.Rhs) == 1 && exprString(fset, d.Lhs[0]) == mvar && exprString(fset, d.Rhs[0]) == "matchData{}"
+			}
+			return false
+		}
+		for _, st := range loop.Body.List {
+			if isZeroDecl(st) {
+				declIn++
+			}
+		}
+		ast.Inspect(rc.Body, func(n ast.Node) bool {
+			switch d := n.(type) {
+			case *ast.ValueSpec:
+				for _, nm := range d.Names {
+					if nm.Name == mvar {
+						declOut++
+					}
+				}
+			case *ast.AssignStmt:
+				if d.Tok == token.DEFINE {
+					for _, l := range d.Lhs {
+						if exprString(fset, l) == mvar {
+							declOut++
+						}
+					}
+				}
+			}
+			return true
+		})
+		// every append to a capture list extends the list of that variable
+		appendsOK := true
+		ast.Inspect(rc.Body, func(n ast.Node) bool {
+			as, ok := n.(*ast.AssignStmt)
+			if !ok || len(as.Rhs) != 1 {
+				return true
+			}
+			ce, ok := as.Rhs[0].(*ast.CallExpr)
+			if !ok || exprString(fset, ce.Fun) != "append" || len(ce.Args) == 0 {
+				return true
+			}
+			if exprString(fset, as.Lhs[0]) != mvar+".match.Capture" || exprString(fset, ce.Args[0]) != mvar+".match.Capture" {
+				appendsOK = false
+			}
+			return true
+		})
+		freshOK = mvar != "" && calls == 1 && declIn == 1 && declOut == 1 && appendsOK
+	}
+	add("runCommentRules: every comment rule starts from empty match data (declared inside the loop over the rules) and appends its own submatches to it", freshOK)
+
 	// ---- loader: the line of a rule is the line of its pattern alternative
 	ls := c03FindFunc(lf, "loadSyntaxRule")
 	lc := c03FindFunc(lf, "loadCommentRule")
